@@ -6,7 +6,6 @@ import (
 	"fmt"
 	"net"
 	"os"
-	"os/exec"
 	"path/filepath"
 	"regexp"
 	"strconv"
@@ -38,23 +37,28 @@ func (s *syncBuf) String() string {
 
 // observation is everything one run of the binary emitted, split into the channels of the property.
 type observation struct {
-	Args      []string
-	Startup   string // log up to the moment both servers listen (+ stderr)
-	ReqLog    string // log written while the successful exchanges ran
-	FailLog   string // log written during the failing exchanges and shutdown (not covered by the property)
-	Stderr    string
-	Configz   reply
-	API401    reply
-	Resp407   reply
-	Resp502   reply
-	OK        []reply // successful exchanges
-	ProxyPort string
-	APIPort   string
-	Dir       string
-	Problem   string // start-up trouble that is not a leak
-	SlowStop  bool   // had to be killed after SIGTERM (shutdown is C11's subject, only counted here)
-	UsedUp    bool   // the upstream proxy saw the configured credentials
-	UsedSite  bool   // the origin saw the configured site credentials
+	Args    []string
+	Startup string // log up to the moment both servers listen (+ stderr)
+	ReqLog  string // log written while the successful exchanges ran
+	FailLog string // log written during the failing exchanges and shutdown (not covered by the property)
+	// fault phase (faults.go): log of the faults with a scheduling-independent outcome, log of the racy
+	// ones, and the request-log dumps of failed exchanges taken out of both (--log-http errors)
+	FaultLog, FaultLogRacy, FaultDumps string
+	Faults                             []faultReply
+	OriginPort, UpstreamPort           string // this run's fault fronts
+	Stderr                             string
+	Configz                            reply
+	API401                             reply
+	Resp407                            reply
+	Resp502                            reply
+	OK                                 []reply // successful exchanges
+	ProxyPort                          string
+	APIPort                            string
+	Dir                                string
+	Problem                            string // start-up trouble that is not a leak
+	SlowStop                           bool   // had to be killed after SIGTERM (shutdown is C11's subject, only counted here)
+	UsedUp                             bool   // the upstream proxy saw the configured credentials
+	UsedSite                           bool   // the origin saw the configured site credentials
 }
 
 var (
@@ -128,7 +132,22 @@ func runAttempt(ctx *core.Ctx, c *Case, k int, g *rig, dir string) (o *observati
 	if fixed {
 		paddr, aaddr = freePorts()
 	}
-	p = assemble(c, k, g, dir, paddr, aaddr)
+	// this run's fault fronts: the configuration points at them instead of the shared servers
+	originFront, err := newFront("origin", g.originAddr, g.frontCert)
+	if err != nil {
+		core.Fatalf("C19: no loopback listener: %v", err)
+	}
+	defer originFront.close()
+	ep := endpoints{Origin: originFront.addr, Upstream: g.upstreamAddr}
+	var upFront *front
+	if c.Upstream != "none" {
+		if upFront, err = newFront("upstream", g.upstreamAddr, g.frontCert); err != nil {
+			core.Fatalf("C19: no loopback listener: %v", err)
+		}
+		defer upFront.close()
+		ep.Upstream = upFront.addr
+	}
+	p = assemble(c, k, ep, dir, paddr, aaddr)
 	for name, content := range p.Files {
 		if err := os.WriteFile(filepath.Join(dir, name), content, 0o600); err != nil {
 			core.Fatalf("C19: %v", err)
@@ -136,8 +155,12 @@ func runAttempt(ctx *core.Ctx, c *Case, k int, g *rig, dir string) (o *observati
 	}
 	os.Remove(filepath.Join(dir, "forwarder.log")) // left over from an attempt that lost its port
 	o = &observation{Args: p.Args, Dir: dir}
+	_, o.OriginPort = hostPort(ep.Origin)
+	_, o.UpstreamPort = hostPort(ep.Upstream)
 	var stdout, stderr syncBuf
-	cmd := exec.Command(fwdBinary(ctx), p.Args...)
+	// (own termination log: a child that loses a port race must not write the machine's file)
+	termLogSetup(ctx)
+	cmd := termLogCommand(fwdBinary(ctx), p.Args, filepath.Join(dir, "termination-log"))
 	cmd.Env = p.Env
 	cmd.Dir = dir
 	cmd.Stdout, cmd.Stderr = &stdout, &stderr
@@ -165,6 +188,11 @@ func runAttempt(ctx *core.Ctx, c *Case, k int, g *rig, dir string) (o *observati
 		case err := <-exited:
 			o.Startup, o.Stderr = logText(), stderr.String()
 			o.Problem = fmt.Sprintf("process exited during start-up: %v", err)
+			if isolationBroke(o.Stderr) {
+				termLog.isolated.Store(false)
+				ctx.Count("termination-log/isolation-lost")
+				return o, p, true
+			}
 			if strings.Contains(o.Startup+o.Stderr, "address already in use") {
 				return o, p, true
 			}
@@ -216,9 +244,13 @@ func runAttempt(ctx *core.Ctx, c *Case, k int, g *rig, dir string) (o *observati
 		pauth = basic(c.BasicAuth.User, pw)
 	}
 	path := "/c19/" + c.ID
-	o.OK = append(o.OK, proxyGet(paddr, useTLS, g.originAddr, path+"/get?x=1", pauth))
+	o.OK = append(o.OK, proxyGet(paddr, useTLS, ep.Origin, path+"/get?x=1", pauth))
 	if c.MITM == "none" {
-		cr, inner := proxyConnectGet(paddr, useTLS, g.originAddr, path+"/tunnel", pauth)
+		cr, inner := proxyConnectGet(paddr, useTLS, ep.Origin, path+"/tunnel", pauth)
+		o.OK = append(o.OK, cr, inner)
+	} else {
+		// intercepted: the proxy terminates the client's TLS and sends the request on over its own
+		cr, inner := proxyConnectGetT(paddr, useTLS, ep.Origin, path+"/mitm?x=1", pauth, true, exchangeTimeout)
 		o.OK = append(o.OK, cr, inner)
 	}
 	aauth := ""
@@ -244,9 +276,21 @@ func runAttempt(ctx *core.Ctx, c *Case, k int, g *rig, dir string) (o *observati
 		o.API401 = apiGet(aaddr, "/configz", basic(c.APIBasicAuth.User, "wrong-"+c.ID))
 	}
 	if c.BasicAuth != nil {
-		o.Resp407 = proxyGet(paddr, useTLS, g.originAddr, path+"/denied", basic(c.BasicAuth.User, "wrong-"+c.ID))
+		o.Resp407 = proxyGet(paddr, useTLS, ep.Origin, path+"/denied", basic(c.BasicAuth.User, "wrong-"+c.ID))
 	}
 	o.Resp502 = proxyGet(paddr, useTLS, g.deadAddr, path+"/dead", pauth)
+	s2 := quiesce(40 * time.Millisecond)
+
+	// --- every fault shape of the peers the credentials are for ---
+	fr := &faultRunner{c: c, p: p, o: o, paddr: paddr, useTLS: useTLS, pauth: pauth, up: upFront, origin: originFront,
+		requestKinds: []string{"get", "connect"}}
+	if c.MITM != "none" {
+		fr.requestKinds = []string{"get", "mitm-get"}
+	}
+	fr.afterHead()
+	s3 := quiesce(40 * time.Millisecond)
+	fr.racy()
+	s4 := quiesce(40 * time.Millisecond)
 
 	// --- stop ---
 	select {
@@ -264,13 +308,21 @@ func runAttempt(ctx *core.Ctx, c *Case, k int, g *rig, dir string) (o *observati
 		o.SlowStop = true
 	}
 	all := logText()
-	if s0 > len(all) {
-		s0 = len(all)
+	cut := func(n int) int {
+		if n > len(all) {
+			return len(all)
+		}
+		return n
 	}
-	if s1 > len(all) {
-		s1 = len(all)
+	s0, s1, s2, s3, s4 = cut(s0), cut(s1), cut(s2), cut(s3), cut(s4)
+	o.Startup, o.ReqLog, o.FailLog = all[:s0], all[s0:s1], all[s1:s2]+all[s4:]
+	o.FaultLog, o.FaultLogRacy = all[s2:s3], all[s3:s4]
+	if c.LogHTTP == "errors" {
+		var d1, d2 string
+		o.FaultLog, d1 = splitHTTPDumps(o.FaultLog)
+		o.FaultLogRacy, d2 = splitHTTPDumps(o.FaultLogRacy)
+		o.FaultDumps = d1 + d2
 	}
-	o.Startup, o.ReqLog, o.FailLog = all[:s0], all[s0:s1], all[s1:]
 	o.Stderr = stderr.String()
 	return o, p, false
 }
